@@ -214,6 +214,30 @@ def mg3456(F, R):
         else:
             # and the label / descent target are those of the edge being walked
             R.ok("MG4", e.where(), "new vertex exactly when neither kid(left,a) nor the map has a target: next_id → add(id) → bind(left, id, a)", detail)
+    # ---- MG4 (every creation): a vertex is created in the left graph only under a fresh id — or "created" where it is present
+    # already (add(left): the left root, a documented no-op).  An id of the *right* graph is not an id of the left one.
+    def _adds(body, events, left_here):
+        for a in events:
+            if not (a.kind == "call" and a.name == "add" and a.callee.get("local") and len(a.args) > 1):
+                continue
+            tgt = strip_load(a.args[1])
+            fresh = mentions(tgt, lambda y: y[0] == "call" and y[1].endswith("::next_id"))
+            if fresh or (left_here is not None and tgt == left_here):
+                R.ok("MG4", a.where(), "add() of a fresh id / of the left vertex itself")
+            else:
+                R.bad("MG4", "MG4/Sodg::merge/add-target-not-a-fresh-id", a.where(),
+                      "merge() creates a vertex of the left graph under an id that is neither fresh (next_id) nor the left vertex "
+                      "itself (%s): an id of the right graph is used as an id of the left one — a stray vertex appears, or a present "
+                      "one is taken for new" % show(tgt, a.body)[:80])
+    _adds(rec, raw, left)
+    mb = c.merge
+    if mb is not rec:
+        mraw = [e for e in Collector(F, stop_names=c.g.api, depth=0).collect(mb) if e.body is mb or e.body.parent == mb.path]
+        left_m = None
+        for e in mraw:
+            if e.kind == "call" and e.path == rec.path and len(e.args) >= left[1]:
+                left_m = strip_load(e.args[left[1] - 1])
+        _adds(mb, mraw, left_m)
     # ---- MG5
     puts = [e for e in raw if e.kind == "call" and e.name == "put" and e.callee.get("local")]
     R.floor("MG5", "put calls in the descent", len(puts), 1, rec.where())
